@@ -603,6 +603,11 @@ def childOutcome (p : Pool) : Child → Option Outcome
   | .task t => match p.tasks[t]? with | some k => k.outcome | none => none
   | .spawner m => match p.reqs[m]? with | some r => r.outcome | none => none
 
+/-- a child task has finished (spawners: not constrained) -/
+def childFinished (p : Pool) : Child → Bool
+  | .task t => match p.tasks[t]? with | some k => k.phase == .finished | none => false
+  | .spawner _ => true
+
 /-- what `_done_callback` decides for the outer future -/
 def gatherVerdict (G : Gather) (co : Option Outcome) : Option Outcome :=
   if !G.retExc && co == some .cancelled then some .cancelled
@@ -623,6 +628,9 @@ def gatherChildDone (p : Pool) (g i : Nat) (viaHandle : Bool) : Pool :=
       match gatherVerdict G (p.childOutcome c) with
       | none => p1
       | some o =>
+        -- defensive (the step functions are total over arbitrary handles): a gather completes *normally* only when
+        -- every child task has finished — which is the case whenever the count says so on a run of the real loop
+        if o == .ok && !(G.children.all p.childFinished) then p1 else
         let p2 := p1.modGather g fun x => { x with outer := some o }
         if viaHandle then p2.schedApi G.owner else p2
 
